@@ -1,6 +1,7 @@
 /-!
 Reference interpretation of the control-flow fragment (C01 / C03 / C04): steps, sequential acts
-(irq / msg), branches guarded by a condition or `else`, conditional steps and acts.  Conditions are
+(irq / msg), branches guarded by a condition, by `else` or by `needs` (a branch that waits until one of the
+sibling branches it names has ended), conditional steps and acts.  Conditions are
 already evaluated (they only read the start inputs in this fragment).  The interpretation is a
 function of the workflow and of the set of interrupts answered so far — there is no schedule, no
 declaration order of branches and no thread count in it.
@@ -10,6 +11,7 @@ namespace Acts.Ref
 inductive Guard where
   | cond (holds : Bool)
   | otherwise                    -- the `else` branch
+  | needs (ids : List String)    -- waits until one of the named sibling branches is terminal (its own `if` is never looked at)
   deriving Repr, DecidableEq
 
 mutual
@@ -25,11 +27,13 @@ end
 def RBranch.guard : RBranch → Guard | .mk _ g _ => g
 def RBranch.id : RBranch → String | .mk i _ _ => i
 
-/-- does some condition branch of the list hold? (then the `else` branch does not run) -/
+/-- does some branch of the list take the step? (then the `else` branch does not run): a condition that holds, or a `needs`
+branch — it is never skipped, so the siblings of the `else` branch are never all skipped -/
 def RBranch.condHolds (b : RBranch) : Bool :=
   match b.guard with
   | .cond h => h
   | .otherwise => false
+  | .needs _ => true
 
 def anyCondHolds : List RBranch → Bool
   | [] => false
@@ -40,18 +44,30 @@ abbrev Answered := String → Bool
 /-! `done`: the construct, once started, has reached a terminal state.  `opens`: the interrupts it is waiting on. -/
 mutual
 def doneStep (a : Answered) : RStep → Bool
-  | .mk _ c bs as => if !c then true else doneBranches a (anyCondHolds bs) bs && doneActs a as
+  | .mk _ c bs as => if !c then true else doneBranches a (anyCondHolds bs) (termIds a bs) bs && doneActs a as
 def doneSteps (a : Answered) : List RStep → Bool
   | [] => true
   | s :: ss => doneStep a s && doneSteps a ss
-def doneBranch (a : Answered) (someCond : Bool) : RBranch → Bool
+/-- `tm`: the ids of the sibling condition branches that are terminal (skipped, or run to their end) -/
+def doneBranch (a : Answered) (someCond : Bool) (tm : List String) : RBranch → Bool
   | .mk _ g ss =>
     match g with
     | .cond h => if h then doneSteps a ss else true
     | .otherwise => if someCond then true else doneSteps a ss
-def doneBranches (a : Answered) (someCond : Bool) : List RBranch → Bool
+    | .needs ns => if ns.any (tm.contains ·) then doneSteps a ss else false
+def doneBranches (a : Answered) (someCond : Bool) (tm : List String) : List RBranch → Bool
   | [] => true
-  | b :: bs => doneBranch a someCond b && doneBranches a someCond bs
+  | b :: bs => doneBranch a someCond tm b && doneBranches a someCond tm bs
+/-- the id of a condition branch that is terminal: its condition failed (skipped) or its steps are done -/
+def termId (a : Answered) : RBranch → List String
+  | .mk i g ss =>
+    match g with
+    | .cond h => if h then (if doneSteps a ss then [i] else []) else [i]
+    | .otherwise => []
+    | .needs _ => []
+def termIds (a : Answered) : List RBranch → List String
+  | [] => []
+  | b :: bs => termId a b ++ termIds a bs
 def doneAct (a : Answered) : RAct → Bool
   | .irq i c => if c then a i else true
   | .msg _ _ => true
@@ -62,19 +78,20 @@ end
 
 mutual
 def opensStep (a : Answered) : RStep → List String
-  | .mk _ c bs as => if !c then [] else opensBranches a (anyCondHolds bs) bs ++ opensActs a as
+  | .mk _ c bs as => if !c then [] else opensBranches a (anyCondHolds bs) (termIds a bs) bs ++ opensActs a as
 /-- steps of a list run one after the other: only the first unfinished one is active -/
 def opensSteps (a : Answered) : List RStep → List String
   | [] => []
   | s :: ss => if doneStep a s then opensSteps a ss else opensStep a s
-def opensBranch (a : Answered) (someCond : Bool) : RBranch → List String
+def opensBranch (a : Answered) (someCond : Bool) (tm : List String) : RBranch → List String
   | .mk _ g ss =>
     match g with
     | .cond h => if h then opensSteps a ss else []
     | .otherwise => if someCond then [] else opensSteps a ss
-def opensBranches (a : Answered) (someCond : Bool) : List RBranch → List String
+    | .needs ns => if ns.any (tm.contains ·) then opensSteps a ss else []
+def opensBranches (a : Answered) (someCond : Bool) (tm : List String) : List RBranch → List String
   | [] => []
-  | b :: bs => opensBranch a someCond b ++ opensBranches a someCond bs
+  | b :: bs => opensBranch a someCond tm b ++ opensBranches a someCond tm bs
 def opensAct (a : Answered) : RAct → List String
   | .irq i c => if c && !a i then [i] else []
   | .msg _ _ => []
@@ -84,9 +101,35 @@ def opensActs (a : Answered) : List RAct → List String
   | x :: xs => if doneAct a x then opensActs a xs else opensAct a x
 end
 
+/-! well-formed `needs`: every `needs` branch names at least one sibling, and only condition branches of its own step (a `needs` list
+that names only waiting branches — `else`, other `needs` branches — or nothing can never be satisfied: those shapes are the recorded
+wait-cycle finding of C01; lists that mix condition branches with waiting ones are outside this interpretation, which tracks the
+endings of condition branches only) -/
+def isCondBranch (b : RBranch) : Bool := match b.guard with | .cond _ => true | _ => false
+
+def condIds (bs : List RBranch) : List String := (bs.filter isCondBranch).map (·.id)
+
+mutual
+def wfStep : RStep → Bool
+  | .mk _ _ bs _ => wfBranches (condIds bs) bs
+def wfSteps : List RStep → Bool
+  | [] => true
+  | s :: ss => wfStep s && wfSteps ss
+def wfBranch (cids : List String) : RBranch → Bool
+  | .mk _ g ss =>
+    (match g with
+     | .needs ns => !ns.isEmpty && ns.all (cids.contains ·)
+     | _ => true) && wfSteps ss
+def wfBranches (cids : List String) : List RBranch → Bool
+  | [] => true
+  | b :: bs => wfBranch cids b && wfBranches cids bs
+end
+
 structure RWorkflow where
   id : String
   steps : List RStep
+
+def RWorkflow.wf (w : RWorkflow) : Bool := wfSteps w.steps
 
 def RWorkflow.done (a : Answered) (w : RWorkflow) : Bool := doneSteps a w.steps
 def RWorkflow.opens (a : Answered) (w : RWorkflow) : List String := opensSteps a w.steps
@@ -96,13 +139,14 @@ end Acts.Ref
 namespace Acts.Ref
 
 /-- a branch whose condition holds and whose steps are all done (the engine decides the `else` branch only then) -/
-def holdingDone (a : Answered) : RBranch → Bool
+def holdingDone (a : Answered) (tm : List String) : RBranch → Bool
   | .mk _ (.cond true) ss => doneSteps a ss
+  | .mk _ (.needs ns) ss => ns.any (tm.contains ·) && doneSteps a ss
   | _ => false
 
-def anyHoldingDone (a : Answered) : List RBranch → Bool
+def anyHoldingDone (a : Answered) (tm : List String) : List RBranch → Bool
   | [] => false
-  | b :: bs => holdingDone a b || anyHoldingDone a bs
+  | b :: bs => holdingDone a tm b || anyHoldingDone a tm bs
 
 /-! the nodes that have started, with the state the interpretation assigns to them.  The `else` branch is `pending` while a
 sibling whose condition holds is still running and `skipped` once such a sibling has finished (the code decides it then). -/
@@ -110,12 +154,12 @@ mutual
 def statesStep (a : Answered) : RStep → List (String × String)
   | .mk i c bs as =>
     if !c then [(i, "skipped")]
-    else (i, if doneBranches a (anyCondHolds bs) bs && doneActs a as then "completed" else "running") ::
-      (statesBranches a (anyCondHolds bs) (anyHoldingDone a bs) bs ++ statesActs a as)
+    else (i, if doneBranches a (anyCondHolds bs) (termIds a bs) bs && doneActs a as then "completed" else "running") ::
+      (statesBranches a (anyCondHolds bs) (anyHoldingDone a (termIds a bs) bs) (termIds a bs) bs ++ statesActs a as)
 def statesSteps (a : Answered) : List RStep → List (String × String)
   | [] => []
   | s :: ss => statesStep a s ++ (if doneStep a s then statesSteps a ss else [])
-def statesBranch (a : Answered) (someCond someDone : Bool) : RBranch → List (String × String)
+def statesBranch (a : Answered) (someCond someDone : Bool) (tm : List String) : RBranch → List (String × String)
   | .mk i g ss =>
     match g with
     | .cond h =>
@@ -123,9 +167,12 @@ def statesBranch (a : Answered) (someCond someDone : Bool) : RBranch → List (S
     | .otherwise =>
       if someCond then [(i, if someDone then "skipped" else "pending")]
       else (i, if doneSteps a ss then "completed" else "running") :: statesSteps a ss
-def statesBranches (a : Answered) (someCond someDone : Bool) : List RBranch → List (String × String)
+    | .needs ns =>
+      if ns.any (tm.contains ·) then (i, if doneSteps a ss then "completed" else "running") :: statesSteps a ss
+      else [(i, "pending")]
+def statesBranches (a : Answered) (someCond someDone : Bool) (tm : List String) : List RBranch → List (String × String)
   | [] => []
-  | b :: bs => statesBranch a someCond someDone b ++ statesBranches a someCond someDone bs
+  | b :: bs => statesBranch a someCond someDone tm b ++ statesBranches a someCond someDone tm bs
 def statesAct (a : Answered) : RAct → List (String × String)
   | .irq i c => [(i, if !c then "skipped" else if a i then "completed" else "interrupted")]
   | .msg i c => [(i, if !c then "skipped" else "completed")]
